@@ -123,6 +123,21 @@ def as_r(term):
     return _unwrap(term, V.ref, V.r)
 
 
+def _has_quantifier(e) -> bool:
+    seen = set()
+    stack = [e]
+    while stack:
+        x = stack.pop()
+        if x.get_id() in seen:
+            continue
+        seen.add(x.get_id())
+        if z3.is_quantifier(x):
+            return True
+        if z3.is_app(x):
+            stack.extend(x.children())
+    return False
+
+
 @dataclass
 class SV:
     term: z3.ExprRef  # of sort V
@@ -251,7 +266,7 @@ class Engine:
             if k == "tuple":
                 facts.append(z3.Select(st.h("llen"), r) == len(ty.a))
             return z3.And(facts)
-        if k == "dict":
+        if k in ("dict", "set"):
             r = as_r(term)
             return z3.And(V.is_ref(term), r >= 0, r < st.alloc, z3.Select(st.h("dsize"), r) >= 0)
         return z3.BoolVal(True)
@@ -333,6 +348,18 @@ class Engine:
                                 if isinstance(node.value, ast.Name) and node.value.id in ann:
                                     return self.ty(ann[node.value.id])
         return T.ANY
+
+    def plainly_infeasible(self, st: St, t) -> bool:
+        """Cheap pruning of a branch whose condition contradicts one of the most recent quantifier-free facts of the path
+        (typical for short-circuit operators: `a and b` evaluated to `a`, then tested again)."""
+        recent = [f for f in st.pc[-12:] if not _has_quantifier(f)]
+        if not recent:
+            return False
+        s = z3.Solver()
+        s.set("timeout", 100)
+        s.add(*recent)
+        s.add(t)
+        return s.check() == z3.unsat
 
     # ------------------------------------------------------------------ VC emission
     def emit(self, name: str, clause: str, st: St, goal, kind: str = "safety", line: int = 0, cover=False, canary=False):
@@ -458,7 +485,7 @@ class Engine:
             return z3.BoolVal(False)
         if ty.k in ("list", "tuple", "vtuple"):
             return self.list_len(st, sv) > 0
-        if ty.k == "dict":
+        if ty.k in ("dict", "set"):
             return self.dict_size(st, sv) > 0
         if ty.k in ("obj", "sub"):
             c = ty.a[0]
@@ -615,6 +642,14 @@ class SpecEval:
             if f == "isinstance":
                 v = self._val(n.args[0])
                 cn = n.args[1]
+                if ast.unparse(cn).endswith(".__class__"):
+                    # isinstance(x, obj.__class__): x is an instance of the dynamic class of obj
+                    o = self._val(cn.value)
+                    oc = T.class_of(o.ty)
+                    if oc is None:
+                        raise Unsupported("__class__ of an untyped value")
+                    subs = eng.repo.subclasses(oc) if T.strip_opt(o.ty).k == "sub" else [oc]
+                    return z3.Or([z3.And(cls_of(as_r(o.term)) == eng.cid(sc), eng.is_instance(v.term, sc)) for sc in subs])
                 names = [e for e in cn.elts] if isinstance(cn, ast.Tuple) else [cn]
                 return z3.Or([eng.is_instance(v.term, self._cname(x)) for x in names])
             if f == "type_is":
@@ -645,6 +680,11 @@ class SpecEval:
                 return eng.has_type(v.term, ty, self.st)
             if f == "dict_wf":
                 return eng.dict_wf(self.st, self._val(n.args[0]))
+            if f == "loop_unchanged_list":
+                # the list object has exactly the contents it had when the innermost enclosing loop was entered
+                assert self.st.loop_entry is not None
+                r = as_r(self._val(n.args[0]).term)
+                return z3.And([z3.Select(self.st.h(k), r) == z3.Select(self.st.loop_entry.h(k), r) for k in ("llen", "lel")])
             if f in ("unchanged_list", "unchanged_dict"):
                 # the container object has exactly the contents it had at function entry
                 assert self.entry is not None
@@ -769,7 +809,7 @@ class SpecEval:
             return eng.dict_has(self.st, d, x.term)
         c = self._val(rn)
         ct = T.strip_opt(c.ty)
-        if ct.k == "dict":
+        if ct.k in ("dict", "set"):
             return eng.dict_has(self.st, c, x.term)
         if ct.k in ("list", "tuple", "vtuple"):
             j = z3.Const(f"j!in{next(_fresh)}", IntS)
@@ -893,6 +933,10 @@ class SpecEval:
                     return SV(mk_int(parse_int(as_s(a.term))), T.INT)
                 if a.ty.k == "int":
                     return a
+                ac = T.class_of(a.ty)
+                m = eng.repo.find_method(ac, "__int__") if ac else None
+                if m is not None:
+                    return eng.pure_property(m, a, st, self.entry)
                 raise Unsupported("int() of " + str(a.ty))
             if f == "str":
                 a = self._val(n.args[0])
@@ -919,7 +963,7 @@ class SpecEval:
                 return st.ghosts[f](self, *args)
             if f in eng.reg.spec_fns:
                 return self._spec_call(f, n.args, want_bool=False)
-            if f in ("implies", "iff", "all_int", "any_int", "all_val", "any_val", "all_ref", "any_ref", "isinstance", "type_is", "fresh", "is_int", "is_none", "is_str", "is_ref", "allocated", "old_allocated", "has_type", "dict_wf", "unchanged_list", "unchanged_dict"):
+            if f in ("implies", "iff", "all_int", "any_int", "all_val", "any_val", "all_ref", "any_ref", "isinstance", "type_is", "fresh", "is_int", "is_none", "is_str", "is_ref", "allocated", "old_allocated", "has_type", "dict_wf", "unchanged_list", "unchanged_dict", "loop_unchanged_list"):
                 return SV(mk_bool(self._bool(n)), T.BOOL)
         if isinstance(n.func, ast.Attribute):
             m = n.func.attr
